@@ -659,6 +659,74 @@ func invBootstrap(orig, got []gen.Row, frac float64) (amb int, err error) {
 	return amb, nil
 }
 
+// invPartBoot: the partitioned bootstrap (Split by the partition, BuildBootstrap per part, Concat):
+// same names; the result is the concatenation, in partition order, of one block per partition of
+// floor(frac*L_p) columns, and every column of a block is a column of that partition of the
+// original, taken for all rows at once
+func invPartBoot(orig, got []gen.Row, frac float64, part []int, k int) (amb int, err error) {
+	gl := aliLen(got)
+	if err = sameShape(orig, got, gl); err != nil {
+		return
+	}
+	co, cg := colsOf(orig), colsOf(got)
+	have := make([]map[string]bool, k)
+	size := make([]int, k)
+	for p := range have {
+		have[p] = map[string]bool{}
+	}
+	for j, c := range co {
+		have[part[j]][c] = true
+		size[part[j]]++
+	}
+	// the accepted block lengths (exact and floating point floor may differ)
+	var lens [][2]int
+	for p := 0; p < k; p++ {
+		lo, hi := floors(frac, size[p])
+		if frac <= 0 || frac > 1 {
+			lo, hi = size[p], size[p]
+		}
+		if lo != hi {
+			amb++
+		}
+		lens = append(lens, [2]int{lo, hi})
+	}
+	var firstErr error
+	for mask := 0; mask < 1<<k; mask++ {
+		pos, ok := 0, true
+		for p := 0; p < k && ok; p++ {
+			n := lens[p][mask>>p&1]
+			if mask>>p&1 == 1 && lens[p][0] == lens[p][1] {
+				ok = false // same as with bit 0
+				break
+			}
+			for j := pos; j < pos+n; j++ {
+				if j >= gl {
+					ok = false
+					if firstErr == nil {
+						firstErr = fmt.Errorf("the result has %d columns, the blocks of the %d partitions need more (frac %v, partition sizes %v)", gl, k, frac, size)
+					}
+					break
+				}
+				if !have[p][cg[j]] {
+					ok = false
+					if firstErr == nil {
+						firstErr = fmt.Errorf("column %d of the result = %q lies in the block of partition %d but is not a column of that partition of the original\n original: %s\n result  : %s", j, cg[j], p, show(orig), show(got))
+					}
+					break
+				}
+			}
+			pos += n
+		}
+		if ok && pos == gl {
+			return amb, nil
+		}
+		if ok && firstErr == nil {
+			firstErr = fmt.Errorf("the result has %d columns, the blocks of the partitions sum to %d (frac %v, partition sizes %v)", gl, pos, frac, size)
+		}
+	}
+	return amb, firstErr
+}
+
 // Sample(nb): nb distinct original rows
 func invSample(orig, got []gen.Row, nb int) error {
 	if len(got) != nb {
